@@ -51,28 +51,35 @@ Definition opt_eqb (a b : option N) : bool :=
   | _, _ => false
   end.
 
+(* ProxyBase::consume leaks the incoming reference when the proxy already owns the same object
+   iff it skips that case without giving the reference back *)
+Definition consume_leaks : bool := cpp_consume_skips_same_object && negb cpp_consume_releases_duplicate.
+
 (* the stub stores one returned handle (which carries one reference) into the caller's holder;
    [held]: what the holder owned before.  C stores into a plain variable and Rust returns a
-   value: a holder that owns something exists only for a C++ proxy. *)
-Definition adopt (b : backend) (held incoming : option N) (L : ledger) : option N * ledger :=
+   value: a holder that owns something exists only for a C++ proxy.  [leaky]: consume_leaks. *)
+Definition adopt_gen (leaky : bool) (b : backend) (held incoming : option N) (L : ledger) : option N * ledger :=
   match b with
   | BC => (incoming, L)
   | BRust => if rust_stub_out_takes then (incoming, L) else (None, L)
   | BCpp =>
       if cpp_stub_out_consumes then
-        if cpp_consume_skips_same_object && opt_eqb held incoming then (held, L)
-        else (incoming, bump_opt held (-1) L)
+        if leaky && opt_eqb held incoming then (held, L)
+        else (incoming, bump_opt held (-1) L)      (* the old reference released; when the objects
+                                                      are equal this is the consumed one given back *)
       else (held, L)
   end.
+Definition adopt := adopt_gen consume_leaks.
 
-Fixpoint adopt_all (b : backend) (po : list (option N * option N)) (L : ledger) : list (option N) * ledger :=
+Fixpoint adopt_all_gen (leaky : bool) (b : backend) (po : list (option N * option N)) (L : ledger) : list (option N) * ledger :=
   match po with
   | [] => ([], L)
   | (h, o) :: r =>
-      let '(h', L1) := adopt b h o L in
-      let '(hs, L2) := adopt_all b r L1 in
+      let '(h', L1) := adopt_gen leaky b h o L in
+      let '(hs, L2) := adopt_all_gen leaky b r L1 in
       (h' :: hs, L2)
   end.
+Definition adopt_all := adopt_all_gen consume_leaks.
 
 (* one call.  sc_ins: the object in every input position (direct, array element, struct field);
    sc_outs: per output position (what the caller's holder owns before, what the implementation
@@ -83,19 +90,21 @@ Definition pre_of (s : scenario) := map fst (sc_outs s).
 Definition out_of (s : scenario) := map snd (sc_outs s).
 
 (* state when the call has returned: (what the caller's output holders own, ledger) *)
-Definition after_call (b1 b2 : backend) (s : scenario) (L0 : ledger) : list (option N) * ledger :=
+Definition after_call_gen (leaky : bool) (b1 b2 : backend) (s : scenario) (L0 : ledger) : list (option N) * ledger :=
   let L1 := bump_all (sc_ins s) 1 L0 in            (* the caller's own references to its inputs *)
   let L2 := bump_all (pre_of s) 1 L1 in            (* what its output holders already own *)
   let L3 := bump_all (sc_ins s) (stub_in b1 + skel_in b2) L2 in
   if sc_ok s then
     let L4 := bump_all (out_of s) (1 + skel_out b2) L3 in   (* one reference handed over per output *)
-    adopt_all b1 (sc_outs s) L4
+    adopt_all_gen leaky b1 (sc_outs s) L4
   else (pre_of s, L3).
+Definition after_call := after_call_gen consume_leaks.
 
 (* ... and when the caller has dropped every reference it holds *)
-Definition after_drop (b1 b2 : backend) (s : scenario) (L0 : ledger) : ledger :=
-  let '(held, L) := after_call b1 b2 s L0 in
+Definition after_drop_gen (leaky : bool) (b1 b2 : backend) (s : scenario) (L0 : ledger) : ledger :=
+  let '(held, L) := after_call_gen leaky b1 b2 s L0 in
   bump_all held (-1) (bump_all (sc_ins s) (-1) L).
+Definition after_drop := after_drop_gen consume_leaks.
 
 (* multiplicity of an object in a list of positions *)
 Fixpoint mult (x : N) (os : list (option N)) : Z :=
@@ -108,6 +117,9 @@ Fixpoint mult (x : N) (os : list (option N)) : Z :=
 (* positions whose holder already owns the very object that is returned into it *)
 Definition aliased (po : list (option N * option N)) : list (option N) :=
   map (fun p => match fst p with Some _ => if opt_eqb (fst p) (snd p) then fst p else None | None => None end) po.
+(* the references nobody owns after the call *)
+Definition leaked (leaky : bool) (po : list (option N * option N)) : list (option N) :=
+  if leaky then aliased po else [].
 
 Definition holders_only_cpp (b : backend) (s : scenario) : bool :=
   match b with BCpp => true | _ => forallb (fun h => match h with None => true | Some _ => false end) (pre_of s) end.
